@@ -482,5 +482,31 @@ class Gen(object):
         self.r.shuffle(items)
         return dict(items)
 
+    def poison_dependencies(self, schema, doc):
+        """make dotted / root-relative dependency paths run through values of the wrong shape"""
+        def names(rules):
+            d = rules.get('dependencies') if isinstance(rules, dict) else None
+            if isinstance(d, str):
+                return [d]
+            if isinstance(d, (list, tuple, dict)):
+                return [x for x in d if isinstance(x, str)]
+            return []
+        for f, rules in schema.items():
+            for n in names(rules):
+                parts = n.lstrip('^').split('.')
+                if len(parts) < 2 or not self.chance(0.6):
+                    continue
+                head, nxt = parts[0], parts[1]
+                doc[head] = self.pick([nxt, 'x' + nxt + 'x', [nxt], [nxt, 1], (nxt,), {nxt: 1}, {nxt: None},
+                                       {nxt: {'c': 1, 'k': 2, '0': 3}}, 5, None, '', [[nxt]]])
+        return doc
+
+    def nones_document(self, schema):
+        """every field present, many of them None: exercises what a None value skips"""
+        d = {}
+        for f, rules in schema.items():
+            d[f] = None if self.chance(0.6) else self.value_for(rules)
+        return d
+
     def arbitrary_document(self):
         return {k: self.anyval(3) for k in self.some(FIELDS, 0, 5)}
